@@ -170,23 +170,35 @@ fn stage_strategy() -> BoxedStrategy<Stage> {
         ],
         0u32..64,
         mask_strategy(),
-        0u8..=3,
+        // fan-out of flat_map: mostly small (empty inner iterators included), sometimes large expansions
+        prop_oneof![
+            12 => 0u8..=3,
+            2 => 4u8..=12,
+            1 => prop_oneof![Just(63u8), Just(64u8), Just(65u8), Just(130u8), Just(255u8)],
+        ],
     )
         .prop_map(|(kind, k, mask, fan)| Stage { kind, k, mask, fan })
         .boxed()
 }
 
 fn len_strategy(max_len: usize) -> BoxedStrategy<usize> {
+    // boundary lengths (empty, one element = a single worker, a handful) get their own share
     if max_len <= 64 {
-        (0..=max_len).boxed()
+        prop_oneof![
+            1 => 0usize..=3usize.min(max_len),
+            6 => 0..=max_len,
+        ]
+        .boxed()
     } else if max_len <= 400 {
         prop_oneof![
+            1 => 0usize..=3,
             4 => 0usize..=40,
             3 => 41usize..=max_len,
         ]
         .boxed()
     } else {
         prop_oneof![
+            1 => 0usize..=3,
             5 => 0usize..=40,
             3 => 41usize..=300,
             2 => 300usize..=max_len,
@@ -465,6 +477,19 @@ pub fn normalise(mut c: Case, cfg: &GenCfg) -> Case {
     }
     if matches!(c.source, Source::ArrayRef) {
         c.input.resize(6, 0);
+    }
+    // large flat_map expansions: at most one per chain, on short inputs (output size stays bounded)
+    let mut big = 0;
+    for s in c.chain.iter_mut() {
+        if s.kind == StageKind::FlatMap && s.fan > 3 {
+            big += 1;
+            if big > 1 {
+                s.fan = 2;
+            }
+        }
+    }
+    if big > 0 && c.input.len() > 48 && !matches!(c.source, Source::ArrayRef) {
+        c.input.truncate(48);
     }
     let n = c.chain.len() as u8;
     for p in c.params.iter_mut() {
